@@ -260,6 +260,17 @@ class DefaultLayout(_BaseLayout[_MaildirT]):
 
     """
 
+    @classmethod
+    def _split(cls, name: str, delimiter: str) -> _Parts:
+        parts = super()._split(name, delimiter)
+        for part in parts:
+            # '.' separates the levels in the folder's directory name: a
+            # part holding one would come back as two levels (a.b and a/b
+            # would be the same folder).
+            if '.' in part:
+                raise FileNotFoundError(name)
+        return parts
+
     def _get_path(self, parts: _Parts) -> str:
         return os.path.join(self._path, self._get_subdir(parts))
 
